@@ -3,9 +3,13 @@ from __future__ import annotations
 
 import ast
 
+from rules.setuse import parents_of
+from sa.absint import Evaluator, flatten_effects
 from sa.escape import ANY, BYTES_U, HANY, TRUSTED, FunctionAnalysis, Val, exc_is, tval
 from sa.index import AnalysisError, walk_no_nested
 from sa.schema import TypeRef
+from sa.terms import App, Const, Ref, Sym, subterms
+from sa.teval import Raised, Unknown, teval
 
 EXPLANATION = ("may-escape analysis over every from_cbor / to_obj / __init__ / helper of the schema classes: values "
                "returned by the CBOR decoder are untrusted and every operation on them must be dominated by a type / "
@@ -16,7 +20,8 @@ EXPLANATION = ("may-escape analysis over every from_cbor / to_obj / __init__ / h
 
 ALLOWED = ("ValueError", "SUITError", "CBORDecodeError", "cbor2.CBORDecodeError")
 PARSER_PREFIX = "suit_generator.suit"
-HELPERS = {"deserialize_cbor", "validate_cbor", "decode_cbor_length", "serialize_cbor", "ensure_cbor", "_get_method_and_name"}
+HELPERS = {"deserialize_cbor", "validate_cbor", "decode_cbor_length", "serialize_cbor", "ensure_cbor", "_get_method_and_name",
+           "reject_shared_values"}
 METHODS = {"from_cbor", "to_obj", "__init__"}
 
 
@@ -73,7 +78,7 @@ def params_for(ctx, f):
                 env[n] = BYTES_U
             elif n == "subtype":
                 env[n] = Val(frozenset({"int"}), True)
-    elif f.name in ("serialize_cbor", "ensure_cbor"):
+    elif f.name in ("serialize_cbor", "ensure_cbor", "reject_shared_values"):
         for n in names:
             if n not in ("cls", "self"):
                 env[n] = ANY
@@ -233,7 +238,24 @@ def _guarded_by_truthiness(fnode, node, field) -> bool:
     return False
 
 
+def _raises_allowed(ev_exit) -> bool:
+    v = ev_exit.value
+    name = None
+    if isinstance(v, App) and v.op.startswith("call:"):
+        name = v.op[5:]
+    elif isinstance(v, App) and v.op == "new" and isinstance(v.args[0], Ref):
+        name = getattr(v.args[0].obj, "name", None)
+    return name is not None and allowed(name)
+
+
+def _is_cborload(t):
+    return isinstance(t, App) and t.op == "cborload"
+
+
 def validate_before_decode(ctx):
+    """cbor2.loads only in deserialize_cbor; there: validate_cbor(x) precedes loads(x) on every path, every decoder exception is
+    converted, the decoded item goes through the sharing guard before it is returned.  Decided on the evaluator's outcomes (effect
+    order and guards), not on the text: temporaries, renames and inserted statements do not matter."""
     R = ctx.report
     repo = ctx.repo
     R.rule("C17-D4 validate before decode", 3, "cbor2.loads only inside deserialize_cbor, after validate_cbor, under a catch-all converting to ValueError")
@@ -243,37 +265,139 @@ def validate_before_decode(ctx):
             continue
         for f in m.functions.values():
             for n in walk_no_nested(f.node):
-                if isinstance(n, ast.Call) and isinstance(n.func, ast.Attribute) and n.func.attr in ("loads", "load") \
-                        and isinstance(n.func.value, ast.Name) and n.func.value.id == "cbor2":
-                    sites.append((f, n))
+                if isinstance(n, ast.Call) and isinstance(n.func, ast.Attribute) and n.func.attr in ("loads", "load"):
+                    r = repo.resolve_expr(f.module, n.func)
+                    if r and r[0] == "ext" and r[1].startswith("cbor2."):
+                        sites.append((f, n))
+    if not sites:
+        raise AnalysisError("no cbor2.loads site found in the parser (resolver lost it)")
     for f, n in sites:
         R.check("C17-D4 validate before decode", f.name == "deserialize_cbor", f"{ctx.fq(f)}: {ast.unparse(n)[:50]}", mod=f.module, node=n,
                 function=ctx.fq(f), expected="the decoder is called only from SuitObject.deserialize_cbor", found="direct cbor2.loads in the parser")
     de = repo.func("suit_generator.suit.types.common", "SuitObject.deserialize_cbor")
-    body = [s for s in de.node.body if not (isinstance(s, ast.Expr) and isinstance(s.value, ast.Constant))]
-    first_call = body[0] if body else None
-    ok_first = isinstance(first_call, ast.Expr) and "validate_cbor(cbstr)" in ast.unparse(first_call)
-    R.check("C17-D4 validate before decode", ok_first, "validate_cbor(cbstr) is the first statement", mod=de.module, node=de.node,
-            function=ctx.fq(de), expected="SuitObject.validate_cbor(cbstr) before cbor2.loads", found="validation does not dominate the decoder call")
-    tries = [s for s in body if isinstance(s, ast.Try)]
-    ok_try = False
-    for t in tries:
-        if "cbor2.loads" in "".join(ast.unparse(x) for x in t.body):
-            for h in t.handlers:
-                names = [ast.unparse(h.type)] if h.type is not None and not isinstance(h.type, ast.Tuple) else []
-                if (h.type is None or "Exception" in names) and h.body and isinstance(h.body[-1], ast.Raise) \
-                        and "ValueError" in ast.unparse(h.body[-1]):
-                    ok_try = True
-    R.check("C17-D4 validate before decode", ok_try, "decoder exceptions are converted to ValueError", mod=de.module, node=de.node,
-            function=ctx.fq(de), expected="except Exception: raise ValueError", found="no converting catch-all around cbor2.loads")
-    # validate_cbor rejects a declared length larger than the input
     va = repo.func("suit_generator.suit.types.common", "SuitObject.validate_cbor")
-    src = ast.unparse(va.node)
+    ev = Evaluator(repo, inline_depth=0)
+    outs = ev.outcomes(de)
+    loads_seen = 0
+    ok_first, ok_conv, catch_all, ok_ret = True, True, False, True
+    guards = []
+    for o in outs:
+        for seq in flatten_effects(o.effects):
+            calls = [e.args[0] for e in seq if isinstance(e, App) and e.op == "eff:call"]
+            for i, c in enumerate(calls):
+                if _is_cborload(c):
+                    loads_seen += 1
+                    arg = c.args[0]
+                    before = [x for x in calls[:i] if isinstance(x, App) and x.op == "call" and isinstance(x.args[0], Ref)
+                              and x.args[0].obj is va and arg in x.args[1:]]
+                    if not before:
+                        ok_first = False
+        if o.kind == "raise":
+            excs = [c for c in o.conds if isinstance(c, App) and c.op == "exc"]
+            if excs:
+                if not _raises_allowed(o):
+                    ok_conv = False
+                if any(isinstance(c.args[0], Const) and c.args[0].v in ("Exception", "BaseException", None, "") for c in excs):
+                    catch_all = True
+        elif o.kind == "return":
+            if not _is_cborload(o.value):
+                ok_ret = False
+            else:
+                seqs = list(flatten_effects(o.effects))
+                for seq in seqs:
+                    calls = [e.args[0] for e in seq if isinstance(e, App) and e.op == "eff:call"]
+                    li = max((i for i, c in enumerate(calls) if c == o.value), default=None)
+                    after = [x for x in (calls[li + 1:] if li is not None else []) if isinstance(x, App) and x.op == "call"
+                             and isinstance(x.args[0], Ref) and o.value in x.args[1:]]
+                    guards.append([x.args[0].obj for x in after])
+    if loads_seen == 0:
+        raise AnalysisError("deserialize_cbor: decoder call not visible to the evaluator")
+    R.check("C17-D4 validate before decode", ok_first, "validate_cbor(x) precedes cbor2.loads(x) on every path", mod=de.module, node=de.node,
+            function=ctx.fq(de), expected="SuitObject.validate_cbor(cbstr) before cbor2.loads(cbstr)", found="validation does not dominate the decoder call")
+    R.check("C17-D4 validate before decode", ok_conv and catch_all, "decoder exceptions are converted to ValueError", mod=de.module, node=de.node,
+            function=ctx.fq(de), expected="a catch-all around cbor2.loads whose every handler raises a ValueError / SUITError",
+            found="no converting catch-all around cbor2.loads" if not catch_all else "a handler raises another class")
+    R.check("C17-D4 validate before decode", ok_ret, "the decoded item itself is returned", mod=de.module, node=de.node, function=ctx.fq(de),
+            expected="return cbor2.loads(cbstr)", found="another value is returned")
+
+    # ---- D7: CBOR value sharing (tags 28/29) is refused before the decoded item is traversed / re-serialized
+    R.rule("C17-D7 value sharing refused", 1, "the decoded item passes a guard that raises a ValueError when a container occurs twice")
+    ok_guard, found = bool(guards), "no return path"
+    for g in guards:
+        if not any(_is_sharing_guard(ctx, fi) for fi in g):
+            ok_guard, found = False, ("decoded item returned without a sharing guard" if not g else
+                                      f"{[getattr(x, 'qualname', x) for x in g]} not recognised as a sharing guard")
+    R.check("C17-D7 value sharing refused", ok_guard, "deserialize_cbor", mod=de.module, node=de.node, function=ctx.fq(de),
+            expected="shared containers (CBOR tags 28/29) are rejected: every re-serialization would expand them again "
+                     "(254 bytes -> 870 MB on the unrepaired tree)", found=found)
+
+    # ---- D4b: validate_cbor rejects the empty input and a declared length beyond the input
     R.rule("C17-D4b length pre-validation", 2, "empty input and over-long declared lengths are rejected before decoding")
-    R.check("C17-D4b length pre-validation", "if len(cbstr) < 1" in src and "raise ValueError" in src, "empty input", mod=va.module, node=va.node,
-            function=ctx.fq(va), expected="len(cbstr) < 1 -> ValueError", found="check missing")
-    R.check("C17-D4b length pre-validation", "requested_memory_len > len(cbstr)" in src, "declared length vs. input length", mod=va.module,
-            node=va.node, function=ctx.fq(va), expected="requested_memory_len > len(cbstr) -> ValueError", found="comparison missing")
+    vouts = Evaluator(repo, inline_depth=0).outcomes(va)
+    params = [a.arg for a in va.node.args.args if a.arg not in ("cls", "self")]
+    if len(params) != 1:
+        raise AnalysisError("validate_cbor: expected one data parameter")
+    P = Sym("param:" + params[0])
+    LEN = App("len", (P,))
+    raises = [o for o in vouts if o.kind == "raise" and _raises_allowed(o)]
+
+    def holds(o, env):
+        try:
+            return all(bool(teval(c, env)) for c in o.conds)
+        except (Unknown, Raised):
+            return None
+    # scenario A: empty input
+    a_ok = any(holds(o, {P: b"", LEN: 0}) is True for o in raises)
+    R.check("C17-D4b length pre-validation", a_ok, "empty input", mod=va.module, node=va.node, function=ctx.fq(va),
+            expected="len(cbstr) == 0 -> ValueError", found="no ValueError outcome is selected by the empty input")
+    # scenario B: a header declaring more bytes than present / scenario C: exactly as many as present (must pass)
+    dec = [s for o in vouts for c in o.conds for s in subterms(c) if isinstance(s, App) and s.op == "call" and isinstance(s.args[0], Ref)
+           and getattr(s.args[0].obj, "name", "") == "decode_cbor_length"]
+    if not dec:
+        raise AnalysisError("validate_cbor: the declared length is not obtained from decode_cbor_length (unrecognised form)")
+    excs = {s for o in vouts for c in o.conds for s in subterms(c) if isinstance(s, App) and s.op == "exc"}
+    sample = b"\x5a\x00\x00\x10\x00"  # bstr, 4-byte length field
+    envb = {P: sample, LEN: len(sample), **{d: 4096 for d in dec}, **{e: False for e in excs}}
+    envc = {P: sample, LEN: len(sample), **{d: 3 for d in dec}, **{e: False for e in excs}}
+    b_res = [holds(o, envb) for o in raises]
+    c_res = [holds(o, envc) for o in vouts if o.kind == "raise"]
+    if all(r is None for r in b_res):
+        raise AnalysisError("validate_cbor: guards not evaluable under the length scenarios")
+    R.check("C17-D4b length pre-validation", any(r is True for r in b_res) and not any(r is True for r in c_res), "declared length vs. input length",
+            mod=va.module, node=va.node, function=ctx.fq(va), expected="declared length > len(cbstr) -> ValueError; a declared length within the input passes",
+            found="the over-long header is accepted" if not any(r is True for r in b_res) else "a well-formed header is rejected")
+
+
+def _is_sharing_guard(ctx, fi) -> bool:
+    """A function that walks list / mapping / tag containers, remembers id() of each in an order-blind set and raises an allowed
+    error when an identity is met again."""
+    if not hasattr(fi, "node"):
+        return False
+    node = fi.node
+    par = parents_of(node)
+    ids = [n for n in ast.walk(node) if isinstance(n, ast.Call) and isinstance(n.func, ast.Name) and n.func.id == "id"]
+    tested = False
+    for c in ids:
+        p = par.get(c)
+        if isinstance(p, ast.Compare) and p.left is c and len(p.ops) == 1 and isinstance(p.ops[0], ast.In):
+            q = par.get(p)
+            if isinstance(q, ast.If) and q.test is p and q.body and isinstance(q.body[-1], ast.Raise):
+                exc = q.body[-1].exc
+                name = ast.unparse(exc.func if isinstance(exc, ast.Call) else exc) if exc is not None else ""
+                if allowed(name.split(".")[-1]):
+                    tested = True
+    kinds = set()
+    for n in ast.walk(node):
+        if isinstance(n, ast.Call) and isinstance(n.func, ast.Name) and n.func.id == "isinstance" and len(n.args) == 2:
+            for x in ast.walk(n.args[1]):
+                if isinstance(x, ast.Name):
+                    kinds.add(x.id)
+                elif isinstance(x, ast.Attribute):
+                    kinds.add(x.attr)
+    covers = "list" in kinds and ({"Mapping", "dict"} & kinds) and "CBORTag" in kinds
+    loops = any(isinstance(n, (ast.While, ast.For)) for n in ast.walk(node)) or any(
+        isinstance(n, ast.Call) and isinstance(n.func, (ast.Name, ast.Attribute)) and ast.unparse(n.func).split(".")[-1] == fi.name for n in ast.walk(node))
+    return bool(tested and covers and loops)
 
 
 def recursion(ctx):
